@@ -257,6 +257,18 @@ def frames_and_lifetime(rec, hub, U, letters, rng, exhaustive):
                     rec.violation(MF, "from_df:entries-depend-on-the-array's-storage-order:column-identified-by-items", {"order": list(p), "unnamed_column_holds": anon, "diff": list(d[1:])})
             except Exception as e:
                 rec.violation(MF, "from_df:raised-for-a-column-identified-by-items", {"order": list(p), "exc": repr(e)[:200]})
+        # every dimension in the rows' MultiIndex, the levels WITHOUT names (each level is recognised through its items)
+        if len(full) >= 2:
+            df5 = base_df.set_index([U[l].name for l in full])
+            df5.index.names = [None] * len(full)
+            rec.event(MF, sig=f"from_df-unnamed-multiindex|{p}", cls="from_df|unnamed MultiIndex levels")
+            try:
+                y6 = fd.FlodymArray.from_df(dims=xp.dims, df=df5)
+                d = same_entries(truth, labelled(y6), True, 1.0)
+                if d is not None:
+                    rec.violation(MF, "from_df:entries-depend-on-the-array's-storage-order:unnamed-multiindex", {"order": list(p), "diff": list(d[1:])})
+            except Exception as e:
+                rec.violation(MF, "from_df:raised-for-an-unnamed-multiindex-in-one-storage-order", {"order": list(p), "exc": repr(e)[:200]})
         # the same with rows missing (allow_missing_values): present rows under their labels, absent ones zero - in every order of the
         # array's dimensions and of the frame's columns; also the sparse export of the permuted array read back
         if len(base_df) > 2:
@@ -328,7 +340,7 @@ def run(rec, hub, tier, seed, shard, nshards, budget):
     rng = case_nprng(seed, "c04.perm-sampling", shard, 0)
     perm.register(hub, exhaustive=(tier == "thorough"), rng=rng, max_pairs=24 if tier == "quick" else 576)
     rec.require(MF, 20)
-    cases = [(ci, reg) for ci in range(len(plan(tier))) for reg in ("tagged", "dyadic", "real")]
+    cases = [(ci, reg) for ci in range(len(plan(tier))) for reg in ("tagged", "dyadic", "real", "wide")]  # wide: entries many orders of magnitude apart
     rec.exhaustive_spaces["all storage orders of every participating array (k! x k! pairs for binary operations and assignment) up to 4 dimensions, per operation configuration"] = tier == "thorough"
     rec.exhaustive_spaces["all storage orders for 3-dimensional operands"] = True
     from ..oracles import big
